@@ -19,25 +19,25 @@ CALL_ONCE = "re:ops::function::FnOnce::call_once$"
 def run(c):
     # --- the six wrappers run their closure on every ok path (justifies treating closures as executing within the call site)
     for w in ("extending", "header_extending", "extending_readonly", "header_extending_readonly", "utxo_view", "rewindable_kernel_view"):
-        c.r1("wrapper-invokes-closure-" + w, X + w, CALL_ONCE, sink="ok", via=0, desc="%s: Ok only if the closure returned Ok" % w)
+        c.r1("wrapper-invokes-closure-" + w, X + w, CALL_ONCE, sink="ok", via=2, desc="%s: Ok only if the closure returned Ok" % w)
     # --- extending
     W = X + "extending"
-    c.r1("ext-header-discard", W, DISCARD, require_where=r"^arg0\.backend", start=CALL_ONCE, sink="return", via=0,
+    c.r1("ext-header-discard", W, DISCARD, require_where=r"^arg0\.backend", start=CALL_ONCE, sink="return", via=2,
          desc="extending: every exit after the closure discards the header MMR backend")
     err_arm = c.arm_blocks(W, r"^discr\(FnOnce::call_once\(arg3", 1)
     rb_arm = [e[1] for e in c.true_edges(W, r"\.extension\.rollback$")]
     ok_arm = [e[1] for e in c.false_edges(W, r"\.extension\.rollback$")]
     for name, arm in (("err", err_arm), ("rollback", rb_arm)):
         for tree in ("output_pmmr_h", "rproof_pmmr_h", "kernel_pmmr_h"):
-            c.r1("ext-%s-discards-%s" % (name, tree), W, DISCARD, require_where=r"^arg1\.%s\.backend" % tree, start=arm, sink="return", via=0,
+            c.r1("ext-%s-discards-%s" % (name, tree), W, DISCARD, require_where=r"^arg1\.%s\.backend" % tree, start=arm, sink="return", via=2,
                  desc="extending: the %s exit discards %s" % (name, tree))
         c.never("ext-%s-no-commit" % name, W, arm, COMMIT, desc="extending: the %s exit never commits the child batch" % name)
         c.never("ext-%s-no-sync" % name, W, arm, SYNC, desc="extending: the %s exit never syncs a backend" % name)
-    c.r1("ext-commit", W, COMMIT, start=ok_arm, sink="ok", via=0, desc="extending: the commit exit commits the child batch")
+    c.r1("ext-commit", W, COMMIT, start=ok_arm, sink="ok", via=2, desc="extending: the commit exit commits the child batch")
     for tree in ("output_pmmr_h", "rproof_pmmr_h", "kernel_pmmr_h"):
-        c.r1("ext-commit-syncs-" + tree, W, SYNC, require_where=r"^arg1\.%s\.backend" % tree, start=ok_arm, sink="ok", via=0,
+        c.r1("ext-commit-syncs-" + tree, W, SYNC, require_where=r"^arg1\.%s\.backend" % tree, start=ok_arm, sink="ok", via=2,
              desc="extending: the commit exit syncs %s" % tree)
-    c.r1("ext-sync-after-commit", W, COMMIT, start=ok_arm, sink=SYNC, via=0, desc="extending: backends are synced only after the child batch committed")
+    c.r1("ext-sync-after-commit", W, COMMIT, start=ok_arm, sink=SYNC, via=2, desc="extending: backends are synced only after the child batch committed")
     c.never("ext-commit-no-discard", W, ok_arm, DISCARD, desc="extending: the commit exit does not discard", dead_errors=True)
     c.r2_arg("ext-commit-child", W, COMMIT, 0, must=["call:Batch::child"], desc="extending commits the child batch (not the caller's batch)")
     # --- header_extending
@@ -45,46 +45,46 @@ def run(c):
     h_err = c.arm_blocks(H, r"^discr\(FnOnce::call_once\(arg2", 1)
     h_rb = [e[1] for e in c.true_edges(H, r"^HeaderExtension::new\(.*\)\.rollback$")]
     h_ok = [e[1] for e in c.false_edges(H, r"^HeaderExtension::new\(.*\)\.rollback$")]
-    c.r1("hext-err-discards", H, DISCARD, start=h_err, sink="return", via=0)
+    c.r1("hext-err-discards", H, DISCARD, start=h_err, sink="return", via=2)
     c.never("hext-err-no-commit", H, h_err, COMMIT)
-    c.r1("hext-rollback-discards", H, DISCARD, start=h_rb, sink="return", via=0)
+    c.r1("hext-rollback-discards", H, DISCARD, start=h_rb, sink="return", via=2)
     c.never("hext-rollback-no-commit", H, h_rb, COMMIT)
-    c.r1("hext-commit", H, COMMIT, start=h_ok, sink="ok", via=0)
-    c.r1("hext-sync", H, SYNC, start=h_ok, sink="ok", via=0)
-    c.r1("hext-sync-after-commit", H, COMMIT, start=h_ok, sink=SYNC, via=0)
+    c.r1("hext-commit", H, COMMIT, start=h_ok, sink="ok", via=2)
+    c.r1("hext-sync", H, SYNC, start=h_ok, sink="ok", via=2)
+    c.r1("hext-sync-after-commit", H, COMMIT, start=h_ok, sink=SYNC, via=2)
     # --- read-only wrappers
     R = X + "extending_readonly"
     for tree, where in (("header", r"^arg0\.backend"), ("output", r"^arg1\.output_pmmr_h\.backend"), ("rproof", r"^arg1\.rproof_pmmr_h\.backend"),
                         ("kernel", r"^arg1\.kernel_pmmr_h\.backend")):
-        c.r1("ro-discards-" + tree, R, DISCARD, require_where=where, start=CALL_ONCE, sink="return", via=0,
+        c.r1("ro-discards-" + tree, R, DISCARD, require_where=where, start=CALL_ONCE, sink="return", via=2,
              desc="extending_readonly: every exit after the closure discards the %s backend" % tree)
-    c.r1("hro-discards", X + "header_extending_readonly", DISCARD, start=CALL_ONCE, sink="return", via=0)
+    c.r1("hro-discards", X + "header_extending_readonly", DISCARD, start=CALL_ONCE, sink="return", via=2)
     for w in ("extending_readonly", "header_extending_readonly", "utxo_view", "rewindable_kernel_view"):
         c.never("ro-never-commits-" + w, X + w, None, "re:::commit$", desc="%s never commits its batch" % w)
         c.never("ro-never-syncs-" + w, X + w, None, SYNC, desc="%s never syncs a backend" % w)
     # --- Chain: commit only after pipeline success; block saved only after the extension succeeded
-    c.r1("commit-after-process_block", CH + "Chain::process_block_single", P + "process_block", sink=COMMIT, via=0)
-    c.r1("commit-after-process_block_header", CH + "Chain::process_block_header", P + "process_block_header", sink=COMMIT, via=0)
-    c.r1("commit-after-process_block_headers", CH + "Chain::sync_block_headers", P + "process_block_headers", sink=COMMIT, via=0)
-    c.r1("announce-after-commit", CH + "Chain::process_block_single", COMMIT, sink="grin_chain::types::ChainAdapter::block_accepted", via=0,
+    c.r1("commit-after-process_block", CH + "Chain::process_block_single", P + "process_block", sink=COMMIT, via=2)
+    c.r1("commit-after-process_block_header", CH + "Chain::process_block_header", P + "process_block_header", sink=COMMIT, via=2)
+    c.r1("commit-after-process_block_headers", CH + "Chain::sync_block_headers", P + "process_block_headers", sink=COMMIT, via=2)
+    c.r1("announce-after-commit", CH + "Chain::process_block_single", COMMIT, sink="grin_chain::types::ChainAdapter::block_accepted", via=2,
          desc="process_block_single: the adapter learns about a block only after the batch committed")
-    c.r1("orphans-only-after-success", CH + "Chain::process_block", CH + "Chain::process_block_single", sink=CH + "Chain::check_orphans", via=0,
+    c.r1("orphans-only-after-success", CH + "Chain::process_block", CH + "Chain::process_block_single", sink=CH + "Chain::check_orphans", via=2,
          desc="Chain::process_block: orphans are re-processed only after the block itself was accepted")
-    c.r1("block-saved-after-extension", P + "process_block", X + "extending", sink=P + "add_block", via=0)
+    c.r1("block-saved-after-extension", P + "process_block", X + "extending", sink=P + "add_block", via=2)
     c.no_reach_cg("no-write-before-extension", [P + "check_known", P + "validate_pow_only", P + "prev_header_store", P + "validate_block"],
                   "re:grin_store::lmdb::Batch::(put|put_ser|delete)$", desc="the pipeline steps before the extension (other than storing the validated header) never write to the batch")
     # --- discard completeness
     B = "grin_store::pmmr::PMMRBackend::discard"
-    c.r1("backend-discard-hash", B, "grin_store::types::DataFile::discard", require_where=r"^arg0\.hash_file", sink="return", via=0)
-    c.r1("backend-discard-data", B, "grin_store::types::DataFile::discard", require_where=r"^arg0\.data_file", sink="return", via=0)
-    c.r1("backend-discard-leafset", B, "grin_store::leaf_set::LeafSet::discard", sink="return", via=0)
-    c.r1("datafile-discard", "grin_store::types::DataFile::discard", "grin_store::types::AppendOnlyFile::discard", sink="return", via=0)
+    c.r1("backend-discard-hash", B, "grin_store::types::DataFile::discard", require_where=r"^arg0\.hash_file", sink="return", via=2)
+    c.r1("backend-discard-data", B, "grin_store::types::DataFile::discard", require_where=r"^arg0\.data_file", sink="return", via=2)
+    c.r1("backend-discard-leafset", B, "grin_store::leaf_set::LeafSet::discard", sink="return", via=2)
+    c.r1("datafile-discard", "grin_store::types::DataFile::discard", "grin_store::types::AppendOnlyFile::discard", sink="return", via=2)
     A = "grin_store::types::AppendOnlyFile::discard"
     c.r2_assign("aof-discard-restores-start", A, "buffer_start_pos", must=["arg0.buffer_start_pos_bak"])
     c.r2_assign("aof-discard-clears-buffer", A, "buffer", must=["call:Vec::new"], sink="return")
     c.r2("aof-discard-recurses", A, cond=r"^discr\(arg0\.size_info\)$", dominate=False, fail_on=True, sink="grin_store::types::AppendOnlyFile::discard",
          desc="AppendOnlyFile::discard also discards the size file") if False else None
-    c.r1("aof-discard-sizefile", A, A, sink="return", via=0, extra_cuts=_not_variable(c, A),
+    c.r1("aof-discard-sizefile", A, A, sink="return", via=2, extra_cuts=_not_variable(c, A),
          desc="AppendOnlyFile::discard: a variable-size file also discards its size file")
     c.r2_assign("leafset-discard-restores", "grin_store::leaf_set::LeafSet::discard", "bitmap", must=["arg0.bitmap_bak"], sink="return")
     c.r3_field("leafset-backup-writers", "grin_store::leaf_set::LeafSet", "bitmap_bak", {"grin_store::leaf_set::LeafSet::flush": {"assign"}}, floor=1)
